@@ -81,8 +81,12 @@ class Rep(Node):
         # a conditional count is a choice between two repetitions
         if isinstance(count, ast.IfExp):
             return Alt(count.test, Rep(count.body, body, var, rng, it), Rep(count.orelse, body, var, rng, it))
-        if isinstance(count, ast.Constant) and count.value == 0 and not isinstance(count.value, bool):
+        if isinstance(count, ast.Constant) and isinstance(count.value, bool):
+            return body if count.value else Seq([])          # `text * flag` with the flag decided
+        if isinstance(count, ast.Constant) and count.value == 0:
             return Seq([])
+        if isinstance(count, ast.Constant) and count.value == 1:
+            return body
         return super().__new__(cls)
 
     def __init__(self, count, body, var=None, rng=None, it=None):
